@@ -378,3 +378,52 @@ class Unregister(RegisterBase):
         net = ref_balance(cx.st)
         return [('atomic:registry-unchanged-when-the-call-raises', self.unchanged(cx)),
                 ('manual-references-balanced-when-the-call-raises', z3.BoolVal(not any(net.values())))]
+
+
+def lookup_value(maps, variant, cls, ns):
+    G, Nm = maps[f'G_{variant}'], maps[f'N_{variant}']
+    return z3.If(z3.And(ns != EMPTY, Nm.contains((ns, cls))), Nm.get((ns, cls)),
+                 z3.If(G.contains((cls,)), G.get((cls,)), NULL))
+
+
+def _lookup_apply(self, eng, st, this, args, n):
+    """Call-site summary of Lookup<v>: its proved postcondition over the caller's registry view."""
+    owner = eng.cur_contract
+    v = 'leaf' if z3.is_true(eng.template_env['NoneIsLeaf']) else 'node'
+    maps = {k: st.heap[o] for k, o in owner.oids.items()}
+    cls = args[0].ref if isinstance(args[0], PyObj) else args[0]
+    return [(st, lookup_value(maps, v, cls, args[1]))]
+
+
+Lookup.apply = _lookup_apply
+
+
+@contract
+class GetKind(RegistryMixin, Contract):
+    name = 'optree::PyTreeTypeRegistry::GetKind'
+    props = ('C02', 'C12', 'C17')
+    template_instances = [{'NoneIsLeaf': False}, {'NoneIsLeaf': True}]
+
+    def setup(self, eng, st, fn):
+        self.setup_registry(eng, st)
+        return super().setup(eng, st, fn)
+
+    def post(self, cx, ret):
+        v = variant_of(cx)
+        h = cx.old('handle').ref
+        ns = cx.old('registry_namespace')
+        t = M.py_type(h)
+        reg = lookup_value(self.maps(cx.entry), v, t, ns)
+        custom = cx.var('custom')
+        expected = z3.If(reg != NULL, M.reg_kind(reg),
+                         z3.If(is_structseq_class(t), K['StructSequence'],
+                               z3.If(is_namedtuple_class(t), K['NamedTuple'], K['Leaf'])))
+        return [('registered-exact-type-else-structseq-else-namedtuple-else-leaf', ret == expected),
+                ('custom-set-iff-custom-registration', custom == z3.If(z3.And(reg != NULL, M.reg_kind(reg) == K['Custom']),
+                                                                       reg, NULL))]
+
+    def frame(self, cx, ret):
+        return [('registry-unchanged', self.unchanged(cx))]
+
+    def method(self, eng, st, base, name, A, n):
+        return None
